@@ -363,6 +363,20 @@ let execcnttsm_cmd (toks : string list) : string option =
        | [] -> None)
   | _ -> None
 
+(* ---- uniform kernel: roots, Lagrange polynomials and derivatives as exact rationals p/q ---- *)
+let unif_cmd (toks : string list) : string option =
+  match toks with
+  | ["unif"; _real; order; xnum; xden] ->
+      let o = int_of_string order in
+      let on = nat_of_int o in
+      let x = { qnum = z_of_string xnum; qden = (match z_of_string xden with Zpos p -> p | _ -> XH) } in
+      let qstr q = let r = qred q in zs r.qnum ^ "/" ^ zs (Zpos r.qden) in
+      let idx = List.init o (fun k -> nat_of_int k) in
+      Some (String.concat " " (List.map (fun m -> qstr (unif_root on m)) idx) ^ " | "
+            ^ String.concat " " (List.map (fun n -> qstr (unif_L on n x)) idx) ^ " | "
+            ^ String.concat " " (List.map (fun n -> qstr (unif_dL on n x)) idx))
+  | _ -> None
+
 (* ---- direct P2P on SpecFloat ---- *)
 let p2p_cmd (toks : string list) : string option =
   match toks with
@@ -429,7 +443,7 @@ let execpertsm_cmd (toks : string list) : string option =
        | [] -> None)
   | _ -> None
 
-let handlers : (string list -> string option) list ref = ref [loc_cmd; execpertsm_cmd; index_cmd; tree_cmd; exec_cmd; exectsm_cmd; execper_cmd; execcnttsm_cmd; execcnt_cmd; mem_cmd; p2p_cmd]
+let handlers : (string list -> string option) list ref = ref [loc_cmd; execpertsm_cmd; index_cmd; tree_cmd; exec_cmd; exectsm_cmd; execper_cmd; execcnttsm_cmd; execcnt_cmd; mem_cmd; unif_cmd; p2p_cmd]
 
 let () =
   let ic = open_in Sys.argv.(1) in
